@@ -1,1 +1,470 @@
-(** Model/Cmd.v — placeholder, to be written. *)
+(** Model/Cmd.v — pypyr's command steps (cmd / shell / cmds / shells).
+
+    Mirrors, function by function:
+      CmdStep.__init__ / create_command        -> [sync_commands]
+      pypyr.subproc.Command.run / _run          -> [run_strs] / [run1]
+      CmdStep.run_step (results in finally)     -> [run_cmds], [sync_cmdout], [run_sync]
+      AsyncCmdStep.__init__ / create_command    -> [async_commands]
+      pypyr.aio.subproc.Command._spawn          -> [async_result]
+      pypyr.aio.subproc.Command._run (sub-list) -> [begin] / [complete]  (one slot per task)
+      Command.run + Commands._run (two gathers) -> [init_slots], [step], [run_machine]
+      Commands.run (aggregation, MultiError)    -> [collect_results], [collect_errors], [run_async]
+      AsyncCmdStep.run_step (cmdOut in finally) -> [async_cmdout]
+
+    The operating system is an oracle [string -> outcome]: what a command line does when it
+    is spawned.  The completion order of concurrently running processes is a SCHEDULE, an
+    arbitrary [list nat]: pick k lets the (k mod r)-th of the r running processes finish.
+    asyncio.gather is modelled by giving every awaited task its own result slot, kept in
+    argument order; the schedule only decides WHEN a slot is written. *)
+From PV Require Export PyVal.
+Import ListNotations.
+Open Scope string_scope.
+Open Scope list_scope.
+
+(** * The world outside pypyr *)
+Inductive outcome :=
+| Exited (rc : Z) (out err : string)          (* ran; exit status and raw captured output *)
+| SpawnFail (ename msg : string).             (* could not even be spawned (e.g. FileNotFoundError) *)
+
+Definition oracle := string -> outcome.
+
+Fixpoint oracle_of (tbl : list (string * outcome)) (c : string) : outcome :=
+  match tbl with
+  | [] => Exited 0 "" ""
+  | (k, o) :: r => if String.eqb k c then o else oracle_of r c
+  end.
+
+Definition exit_zero (orc : oracle) (c : string) : bool :=
+  match orc c with Exited rc _ _ => Z.eqb rc 0 | SpawnFail _ _ => false end.
+
+(** * Small string functions *)
+(** [str.rstrip()] over ASCII: whitespace = 9..13, 28..32. *)
+Definition is_py_space (a : ascii) : bool :=
+  let n := nat_of_ascii a in
+  (Nat.leb 9 n && Nat.leb n 13) || (Nat.leb 28 n && Nat.leb n 32).
+
+Fixpoint rstrip (s : string) : string :=
+  match s with
+  | EmptyString => EmptyString
+  | String a r =>
+      let r' := rstrip r in
+      if String.eqb r' "" && is_py_space a then EmptyString else String a r'
+  end.
+
+(** [shlex.split] restricted to command lines without quotes, escapes: split on runs of
+    the shlex whitespace characters (space, tab, CR, LF). *)
+Definition is_shlex_space (a : ascii) : bool :=
+  let n := nat_of_ascii a in
+  Nat.eqb n 32 || Nat.eqb n 9 || Nat.eqb n 10 || Nat.eqb n 13.
+
+Fixpoint shlex_words (s : string) (cur : string) : list string :=
+  match s with
+  | EmptyString => if String.eqb cur "" then [] else [str_rev cur]
+  | String a r =>
+      if is_shlex_space a
+      then (if String.eqb cur "" then shlex_words r "" else str_rev cur :: shlex_words r "")
+      else shlex_words r (String a cur)
+  end.
+
+Definition shlex_split (s : string) : list string := shlex_words s "".
+
+Definition is_quote_char (a : ascii) : bool :=
+  let n := nat_of_ascii a in Nat.eqb n 34 || Nat.eqb n 39 || Nat.eqb n 92.
+
+Fixpoint shlex_plain (s : string) : bool :=
+  match s with
+  | EmptyString => true
+  | String a r => negb (is_quote_char a) && shlex_plain r
+  end.
+
+(** * What the steps produce *)
+(** One element of [Command.results]: a [SubprocessResult] or, in the async steps, the
+    exception raised while spawning. *)
+Inductive res1 :=
+| R1 (cmd : val) (rc : Z) (out err : val)
+| X1 (ename msg : string).
+
+(** One top-level entry of the async result list: a result, or the list of results of a
+    serial sub-sequence. *)
+Inductive rentry :=
+| EOne (r : res1)
+| ESer (l : list res1).
+
+(** [context['cmdOut']] after the step. *)
+Inductive cmdout :=
+| OutUnset                         (* the step did not touch cmdOut *)
+| OutSingle (r : res1)             (* cmd/shell with exactly one saved result: the bare object *)
+| OutList (l : list rentry).       (* a list *)
+
+(** An error object: [kind] is the class (subprocess.CalledProcessError for the serial
+    steps, pypyr.errors.SubprocessError inside MultiError), or an exception from the spawn. *)
+Inductive perr :=
+| PErr (kind : string) (cmd : val) (rc : Z) (out err : val)
+| PExn (ename msg : string).
+
+Inductive raised :=
+| NoError
+| Raised (e : perr)                (* serial steps: the error of the failing command *)
+| Multi (l : list perr).           (* async steps: one pypyr.errors.MultiError *)
+
+Record obs := mkObs {
+  ob_started : list string;        (* serial: in start order; async: in declaration order *)
+  ob_wave : list string;           (* async: started before any process completed *)
+  ob_err : raised;
+  ob_out : cmdout }.
+
+(** * Serial steps: pypyr.steps.cmd, pypyr.steps.shell *)
+Inductive srun := RunStr (c : string) | RunList (l : list string).
+
+(** expanded syntax {run, save, bytes} *)
+Record smap := mkSmap { m_run : srun; m_save : bool; m_bytes : bool }.
+Inductive sitem := IStr (c : string) | IMap (m : smap).
+Inductive sconf := CfStr (c : string) | CfMap (m : smap) | CfList (l : list sitem).
+
+(** pypyr.subproc.Command *)
+Record scmd := mkScmd { sc_run : srun; sc_save : bool; sc_text : bool }.
+
+Definition sync_create (m : smap) : scmd :=
+  mkScmd (m_run m) (m_save m) (if m_save m then negb (m_bytes m) else false).
+
+Definition sync_simple (c : string) : scmd := mkScmd (RunStr c) false false.
+
+Definition sync_commands (cf : sconf) : list scmd :=
+  match cf with
+  | CfStr c => [sync_simple c]
+  | CfMap m => [sync_create m]
+  | CfList l => map (fun it => match it with IStr c => sync_simple c | IMap m => sync_create m end) l
+  end.
+
+Definition run_list (r : srun) : list string :=
+  match r with RunStr c => [c] | RunList l => l end.
+
+Section Serial.
+  Variable orc : oracle.
+  Variable shell : bool.
+
+  Definition sync_args (c : string) : val :=
+    if shell then VStr c else VList (map VStr (shlex_split c)).
+
+  Definition sync_result (text : bool) (c : string) (rc : Z) (o e : string) : res1 :=
+    R1 (sync_args c) rc
+       (if text then VStr (rstrip o) else VBytes o)
+       (if text then VStr (rstrip e) else VBytes e).
+
+  (** [CalledProcessError] from [check_returncode] / [check=True]: raw, unstripped output
+      when captured, [None] when not. *)
+  Definition sync_error (save text : bool) (c : string) (rc : Z) (o e : string) : perr :=
+    PErr "subprocess.CalledProcessError" (sync_args c) rc
+         (if save then (if text then VStr o else VBytes o) else VNone)
+         (if save then (if text then VStr e else VBytes e) else VNone).
+
+  (** [Command._run]: results appended by this call, and the exception it raises. *)
+  Definition run1 (k : scmd) (c : string) : list res1 * option perr :=
+    match orc c with
+    | SpawnFail n m => ([], Some (PExn n m))
+    | Exited rc o e =>
+        (if sc_save k then [sync_result (sc_text k) c rc o e] else [],
+         if Z.eqb rc 0 then None else Some (sync_error (sc_save k) (sc_text k) c rc o e))
+    end.
+
+  (** [Command.run]: the run instructions in order, stopping at the first raise.
+      Returns (spawned, results, raised). *)
+  Fixpoint run_strs (k : scmd) (cs : list string) : list string * list res1 * option perr :=
+    match cs with
+    | [] => ([], [], None)
+    | c :: r =>
+        let '(rs, er) := run1 k c in
+        match er with
+        | Some e => ([c], rs, Some e)
+        | None => let '(st, rs', er') := run_strs k r in (c :: st, rs ++ rs', er')
+        end
+    end.
+
+  (** [CmdStep.run_step]: the commands in order; [results.extend(cmd.results)] in [finally]. *)
+  Fixpoint run_cmds (ks : list scmd) : list string * list res1 * option perr :=
+    match ks with
+    | [] => ([], [], None)
+    | k :: r =>
+        let '(st, rs, er) := run_strs k (run_list (sc_run k)) in
+        match er with
+        | Some e => (st, rs, Some e)
+        | None => let '(st', rs', er') := run_cmds r in (st ++ st', rs ++ rs', er')
+        end
+    end.
+
+  (** the outer [finally]: nothing / the single object / the list *)
+  Definition sync_cmdout (rs : list res1) : cmdout :=
+    match rs with
+    | [] => OutUnset
+    | [r] => OutSingle r
+    | _ => OutList (map EOne rs)
+    end.
+
+  Definition run_sync (cf : sconf) : obs :=
+    let '(st, rs, er) := run_cmds (sync_commands cf) in
+    mkObs st [] (match er with None => NoError | Some e => Raised e end) (sync_cmdout rs).
+End Serial.
+
+(** * Concurrent steps: pypyr.steps.cmds, pypyr.steps.shells *)
+Inductive aentry := AOne (c : string) | ASer (l : list string).
+Inductive arun := ARunStr (c : string) | ARunList (l : list aentry).
+Record amap := mkAmap { am_run : arun; am_save : bool; am_bytes : bool }.
+Inductive aitem := AIStr (c : string) | AISub (l : list string) | AIMap (m : amap).
+Inductive aconf := ACfStr (c : string) | ACfMap (m : amap) | ACfList (l : list aitem).
+
+(** pypyr.aio.subproc.Command *)
+Record acmd := mkAcmd { ac_run : arun; ac_save : bool; ac_text : bool }.
+
+Definition async_create (m : amap) : acmd :=
+  mkAcmd (am_run m) (am_save m) (if am_save m then negb (am_bytes m) else false).
+
+Definition async_simple (c : string) : acmd := mkAcmd (ARunStr c) false false.
+
+(** a list item that is itself a list becomes [Command([item])]: ONE task running the
+    sub-list serially *)
+Definition async_sub (l : list string) : acmd := mkAcmd (ARunList [ASer l]) false false.
+
+Definition async_commands (cf : aconf) : list acmd :=
+  match cf with
+  | ACfStr c => [async_simple c]
+  | ACfMap m => [async_create m]
+  | ACfList l => map (fun it => match it with
+                                | AIStr c => async_simple c
+                                | AISub s => async_sub s
+                                | AIMap m => async_create m
+                                end) l
+  end.
+
+(** The tasks of one Command: a str runs as the single awaited [_run]; a list is gathered,
+    one task per item.  Either way one element of [_results] per entry. *)
+Definition entries (k : acmd) : list aentry :=
+  match ac_run k with ARunStr c => [AOne c] | ARunList l => l end.
+
+Definition entry_cmds (e : aentry) : list string :=
+  match e with AOne c => [c] | ASer l => l end.
+
+(** A task's slot: owner's flags, what it has finished so far, what it is waiting on, what
+    it would start next. *)
+Record slot := mkSlot {
+  sl_save : bool; sl_text : bool;
+  sl_ser : bool;                         (* a serial sub-list (result is a list) *)
+  sl_done : list (string * res1);        (* commands finished (or unspawnable), with results *)
+  sl_cur : option string;                (* the process this task is awaiting *)
+  sl_rest : list string }.               (* not started yet *)
+
+Section Concurrent.
+  Variable orc : oracle.
+  Variable shell : bool.
+
+  Definition async_args (c : string) : val :=
+    if shell then VStr c else VList (map VStr (shlex_split c)).
+
+  (** [_spawn] after [communicate()]: not saving -> nothing captured -> None; saving text ->
+      decoded and stripped only when non-empty, the empty bytes object otherwise. *)
+  Definition async_stream (save text : bool) (s : string) : val :=
+    if save then
+      (if text then (if String.eqb s "" then VBytes "" else VStr (rstrip s)) else VBytes s)
+    else VNone.
+
+  Definition async_result (save text : bool) (c : string) (rc : Z) (o e : string) : res1 :=
+    R1 (async_args c) rc (async_stream save text o) (async_stream save text e).
+
+  Definition finished (s : slot) (done : list (string * res1)) : slot :=
+    mkSlot (sl_save s) (sl_text s) (sl_ser s) done None [].
+
+  (** start the next command of the task, if any: a spawn failure is raised by
+      [create_subprocess_*] at once, is caught, recorded and ends the task *)
+  Definition begin (s : slot) (done : list (string * res1)) (cs : list string) : slot :=
+    match cs with
+    | [] => finished s done
+    | c :: r =>
+        match orc c with
+        | SpawnFail n m => finished s (done ++ [(c, X1 n m)])
+        | Exited _ _ _ => mkSlot (sl_save s) (sl_text s) (sl_ser s) done (Some c) r
+        end
+    end.
+
+  (** the awaited process finishes: record the result; non-zero ends the sub-list *)
+  Definition complete (s : slot) : slot :=
+    match sl_cur s with
+    | None => s
+    | Some c =>
+        match orc c with
+        | Exited rc o e =>
+            let done' := sl_done s ++ [(c, async_result (sl_save s) (sl_text s) c rc o e)] in
+            if Z.eqb rc 0 then begin s done' (sl_rest s) else finished s done'
+        | SpawnFail n m => finished s (sl_done s ++ [(c, X1 n m)])
+        end
+    end.
+
+  Definition init_slot (k : acmd) (e : aentry) : slot :=
+    let s0 := mkSlot (ac_save k) (ac_text k)
+                     (match e with AOne _ => false | ASer _ => true end) [] None [] in
+    begin s0 [] (entry_cmds e).
+
+  (** every task of every Command is created before any is awaited: all heads start *)
+  Definition init_slots (ks : list acmd) : list slot :=
+    flat_map (fun k => map (init_slot k) (entries k)) ks.
+
+  Definition is_running (s : slot) : bool :=
+    match sl_cur s with Some _ => true | None => false end.
+
+  Definition n_running (sls : list slot) : nat := List.length (filter is_running sls).
+
+  (** complete the k-th running slot (declaration order) *)
+  Fixpoint complete_nth (k : nat) (sls : list slot) : list slot :=
+    match sls with
+    | [] => []
+    | s :: r =>
+        if is_running s then
+          match k with
+          | O => complete s :: r
+          | S k' => s :: complete_nth k' r
+          end
+        else s :: complete_nth k r
+    end.
+
+  Definition step (k : nat) (sls : list slot) : list slot :=
+    match n_running sls with
+    | O => sls
+    | S _ => complete_nth (Nat.modulo k (n_running sls)) sls
+    end.
+
+  Fixpoint run_machine (fuel : nat) (sched : list nat) (sls : list slot) : list slot :=
+    match fuel with
+    | O => sls
+    | S f =>
+        match sched with
+        | [] => run_machine f [] (step 0 sls)
+        | k :: t => run_machine f t (step k sls)
+        end
+    end.
+
+  Definition slot_work (s : slot) : nat :=
+    match sl_cur s with Some _ => S (List.length (sl_rest s)) | None => O end.
+
+  Definition total_work (sls : list slot) : nat :=
+    fold_right (fun s n => (slot_work s + n)%nat) O sls.
+
+  (** ** Aggregation, after [asyncio.run] returned *)
+  Definition slot_started (s : slot) : list string :=
+    map fst (sl_done s) ++ match sl_cur s with Some c => [c] | None => [] end.
+
+  Definition slot_entry (s : slot) : rentry :=
+    if sl_ser s then ESer (map snd (sl_done s))
+    else match sl_done s with
+         | (_, r) :: _ => EOne r
+         | [] => ESer []          (* unreachable for finished slots of a non-empty entry *)
+         end.
+
+  (** [SubprocessResult.check_returncode] / exceptions, flattened by [_parse_result] *)
+  Definition res_error (r : res1) : list perr :=
+    match r with
+    | R1 cmd rc o e =>
+        if Z.eqb rc 0 then [] else [PErr "pypyr.errors.SubprocessError" cmd rc o e]
+    | X1 n m => [PExn n m]
+    end.
+
+  Definition slot_errors (s : slot) : list perr :=
+    flat_map (fun p => res_error (snd p)) (sl_done s).
+
+  Definition collect_results (sls : list slot) : list rentry :=
+    flat_map (fun s => if sl_save s then [slot_entry s] else []) sls.
+
+  Definition collect_errors (sls : list slot) : list perr := flat_map slot_errors sls.
+
+  Definition any_save (ks : list acmd) : bool := existsb ac_save ks.
+
+  Definition async_cmdout (ks : list acmd) (sls : list slot) : cmdout :=
+    if any_save ks then OutList (collect_results sls) else OutUnset.
+
+  Definition async_raised (sls : list slot) : raised :=
+    match collect_errors sls with [] => NoError | l => Multi l end.
+
+  Definition run_async_cmds (sched : list nat) (ks : list acmd) : obs :=
+    let s0 := init_slots ks in
+    let sf := run_machine (total_work s0) sched s0 in
+    mkObs (flat_map slot_started sf) (flat_map slot_started s0)
+          (async_raised sf) (async_cmdout ks sf).
+
+  Definition run_async (sched : list nat) (cf : aconf) : obs :=
+    run_async_cmds sched (async_commands cf).
+End Concurrent.
+
+(** * Comparing with an observation of the implementation *)
+Definition res1_eqb (a b : res1) : bool :=
+  match a, b with
+  | R1 c rc o e, R1 c' rc' o' e' => val_eqb c c' && Z.eqb rc rc' && val_eqb o o' && val_eqb e e'
+  | X1 n m, X1 n' m' => String.eqb n n' && String.eqb m m'
+  | _, _ => false
+  end.
+
+Definition rentry_eqb (a b : rentry) : bool :=
+  match a, b with
+  | EOne x, EOne y => res1_eqb x y
+  | ESer x, ESer y => list_eqb res1_eqb x y
+  | _, _ => false
+  end.
+
+Definition cmdout_eqb (a b : cmdout) : bool :=
+  match a, b with
+  | OutUnset, OutUnset => true
+  | OutSingle x, OutSingle y => res1_eqb x y
+  | OutList x, OutList y => list_eqb rentry_eqb x y
+  | _, _ => false
+  end.
+
+Definition perr_eqb (a b : perr) : bool :=
+  match a, b with
+  | PErr k c rc o e, PErr k' c' rc' o' e' =>
+      String.eqb k k' && val_eqb c c' && Z.eqb rc rc' && val_eqb o o' && val_eqb e e'
+  | PExn n m, PExn n' m' => String.eqb n n' && String.eqb m m'
+  | _, _ => false
+  end.
+
+Definition raised_eqb (a b : raised) : bool :=
+  match a, b with
+  | NoError, NoError => true
+  | Raised x, Raised y => perr_eqb x y
+  | Multi x, Multi y => list_eqb perr_eqb x y
+  | _, _ => false
+  end.
+
+Definition obs_eqb (a b : obs) : bool :=
+  list_eqb String.eqb (ob_started a) (ob_started b)
+  && list_eqb String.eqb (ob_wave a) (ob_wave b)
+  && raised_eqb (ob_err a) (ob_err b)
+  && cmdout_eqb (ob_out a) (ob_out b).
+
+Definition sconf_cmds (cf : sconf) : list string :=
+  flat_map (fun k => run_list (sc_run k)) (sync_commands cf).
+
+Definition aconf_cmds (cf : aconf) : list string :=
+  flat_map (fun k => flat_map entry_cmds (entries k)) (async_commands cf).
+
+(** In the modelled fragment: no quoting in any command line, no empty run list. *)
+Definition sync_supported (cf : sconf) : bool :=
+  forallb shlex_plain (sconf_cmds cf)
+  && forallb (fun k => negb (is_nil (run_list (sc_run k)))) (sync_commands cf)
+  && negb (is_nil (sync_commands cf)).
+
+Definition async_supported (cf : aconf) : bool :=
+  forallb shlex_plain (aconf_cmds cf)
+  && forallb (fun k => negb (is_nil (entries k))) (async_commands cf)
+  && negb (is_nil (async_commands cf)).
+
+(** 0 agree / 1 disagree / 2 outside the model.  [wave_known] is false when the harness
+    cannot see the first wave (real processes). *)
+Definition check_sync (tbl : list (string * outcome)) (shell : bool) (cf : sconf) (o : obs) : nat :=
+  if sync_supported cf
+  then (if obs_eqb (run_sync (oracle_of tbl) shell cf) o then 0 else 1)%nat
+  else 2%nat.
+
+Definition check_async (tbl : list (string * outcome)) (shell : bool) (sched : list nat)
+           (wave_known : bool) (cf : aconf) (o : obs) : nat :=
+  if async_supported cf
+  then
+    let m := run_async (oracle_of tbl) shell sched cf in
+    let m' := if wave_known then m else mkObs (ob_started m) [] (ob_err m) (ob_out m) in
+    (if obs_eqb m' o then 0 else 1)%nat
+  else 2%nat.
